@@ -19,7 +19,14 @@ LONS = [0.0, 90.0, 180.0, -180.0, 270.0, -90.0, -270.0, 360.0, -360.0, 1e-9, 359
 
 def latlon(rng):
     r = rng.random()
-    lat = rng.choice(LATS) if r < 0.25 else rng.uniform(-90, 90)
+    if r < 0.12:
+        # whole degrees, small ones above all, as int or float (stations on a degree grid; values with equal hashes such as
+        # -1 and -2, or an int and the equal float, are different positions / the same position respectively)
+        k = rng.choice([int, float])
+        lat = k(rng.choice([-2, -1, 0, 1, 2, rng.randrange(-90, 91)]))
+        lon = k(rng.choice([-2, -1, 0, 1, 2, rng.randrange(-180, 181)]))
+        return lat, lon
+    lat = rng.choice(LATS) if r < 0.35 else rng.uniform(-90, 90)
     lon = rng.choice(LONS) if rng.random() < 0.25 else rng.uniform(-360, 360)
     return lat, lon
 
